@@ -2,6 +2,8 @@
 
 package writer
 
+import "time"
+
 // VerifHoldAllSegStores takes the write lock of the segstore table and returns the function that releases it:
 // the C11 harness uses it as a starting gate, so that several first ingests of one new stream look the stream up at
 // the same moment.
@@ -46,4 +48,25 @@ func VerifC11UnrotatedCmiState(table string) []VerifC11CmiState {
 		res = append(res, s)
 	}
 	return res
+}
+
+// VerifC11DrainPqsChan (harness/cmd/c11/pq.go): one pass of listenBackFillAndEmptyPQSRequests, now instead of on its
+// 10 s tick: collects the requests queued on pqsChan (the senders are started with `go` at rotation: waits until no
+// request has arrived for idleMs) and hands them to processBackFillAndEmptyPQSRequests.  Returns the number of requests
+// processed.  For a node whose listener goroutine is not running (first start on an empty data directory).
+func VerifC11DrainPqsChan(idleMs int) int {
+	var buf []PQSChanMeta
+	idle := time.Duration(idleMs) * time.Millisecond
+	last := time.Now()
+	for time.Since(last) < idle {
+		select {
+		case m := <-pqsChan:
+			buf = append(buf, m)
+			last = time.Now()
+		default:
+			time.Sleep(2 * time.Millisecond)
+		}
+	}
+	processBackFillAndEmptyPQSRequests(buf)
+	return len(buf)
 }
